@@ -318,6 +318,7 @@ Definition rc_shape (m : cmap) : res (nat * nat) :=
 
 Definition acc_row (m : cmap) : res (list nat) :=
   s <- rc_shape m ;;
+  if negb (length (ind m) =? fst s * snd s) then Err IndexError else   (* boolean index size *)
   let rows := mask_filter (ind m) (map (fun p => p / snd s) (seq 0 (fst s * snd s))) in
   match rows with
   | [] => Err ValueError
@@ -326,6 +327,7 @@ Definition acc_row (m : cmap) : res (list nat) :=
 
 Definition acc_col (m : cmap) : res (list nat) :=
   s <- rc_shape m ;;
+  if negb (length (ind m) =? fst s * snd s) then Err IndexError else
   let cols := mask_filter (ind m) (map (fun p => p mod snd s) (seq 0 (fst s * snd s))) in
   match cols with
   | [] => Err ValueError
@@ -343,6 +345,7 @@ Definition get_map_data (m : cmap) (is_array : bool) (vals : list V)
     let n := count (ind m) in
     let map_size := size (oshape m) in
     let rgb := is_array && (length vals =? 3) && (3 <? map_size) in
+    if negb (length (ind m) =? map_size) then Err IndexError else   (* array[self.is_in_data] *)
     if negb (rgb || (length vals =? n) || (length vals =? 1)) then Err ValueError else
     let svals : list (option V) :=
       if length vals =? n then map Some vals else repeat (hd_error vals) n in
